@@ -341,21 +341,25 @@ class _InMemoryBackend(backend.Backend):
 
     # NOTE(daiyip): algorithm can continue if it's already set up with the same
     # DNASpec, or we will setup the algorithm with input DNASpec.
-    if algorithm.dna_spec is None:
-      algorithm.setup(dna_spec)
-    elif symbolic.ne(algorithm.dna_spec, dna_spec):
-      raise ValueError(
-          f'{algorithm!r} has been set up with a different DNASpec. '
-          f'Existing: {algorithm.dna_spec!r}, New: {dna_spec!r}.')
-
-    if early_stopping_policy:
-      if early_stopping_policy.dna_spec is None:
-        early_stopping_policy.setup(dna_spec)
-      elif early_stopping_policy.dna_spec != dna_spec:
+    # NOTE: workers sharing the algorithm arrive here concurrently: checking
+    # and setting up must be one atomic step, or a second worker proposes from
+    # an algorithm whose setup has not finished (or sets it up again).
+    with _in_memory_results_lock:
+      if algorithm.dna_spec is None:
+        algorithm.setup(dna_spec)
+      elif symbolic.ne(algorithm.dna_spec, dna_spec):
         raise ValueError(
-            f'{early_stopping_policy!r} has been set up with a different '
-            f'DNASpec. Existing: {early_stopping_policy.dna_spec!r}, '
-            f'New: {dna_spec!r}.')
+            f'{algorithm!r} has been set up with a different DNASpec. '
+            f'Existing: {algorithm.dna_spec!r}, New: {dna_spec!r}.')
+
+      if early_stopping_policy:
+        if early_stopping_policy.dna_spec is None:
+          early_stopping_policy.setup(dna_spec)
+        elif early_stopping_policy.dna_spec != dna_spec:
+          raise ValueError(
+              f'{early_stopping_policy!r} has been set up with a different '
+              f'DNASpec. Existing: {early_stopping_policy.dna_spec!r}, '
+              f'New: {dna_spec!r}.')
 
     if kwargs:
       logging.warning(
